@@ -41,10 +41,11 @@ func (check) Cases(tier string) int {
 }
 
 const typeShare = 4     // consecutive cases sharing one generated type
+const topEvery = 6      // one type in topEvery is a top-level slice / map target
 const maxVariants = 128 // fault variants executed per case
 
 func (check) Rule() string {
-	return "one case = (type, plan). Type: top-level struct of 2-6 fields, depth <= 3, fields of kind int int64 uint float64 string time.Duration and the library leaves Port / Level / DefLevel / DefBad (Validate with value or pointer receiver, InitDefaults giving a valid or an invalid value), pointers to those, slices / arrays / maps of those, structs by value, by pointer, inline, in slices, arrays and maps (by value and by pointer), interface{} fields (holding a number, a string or a pointer to struct), ignored fields, and the library structs WithDefaults / WithBadDefaults (InitDefaults), Range / Pair (cross-field Validate, value / pointer receiver), Hidden (unexported + ignored field); collision-free `config` names and 0-2 validators per field among required, nonzero, positive, min=N, max=N (durations: 5s or 5) that apply to the kind; one type per " + strconv.Itoa(typeShare) + " consecutive cases. Plan: every position independently takes its value from the configuration (spelled as int/int64/uint64/float/string, durations as text or seconds, 1 in 6 through ${v.xN} under PathSep(.)+VarExp), from the pre-filled target, from InitDefaults, or stays zero/nil; slices mix configured, merged and untouched pre-filled elements, maps mix configured, pre-filled and merged entries. Valid values are interior or exactly on a bound (bounds are inclusive). Base plan: Unpack must return nil and the oracle walk must be clean. Then every (position, validator, source) fault the plan admits (<= " + strconv.Itoa(maxVariants) + " per case) is injected alone: bad value from the configuration / through a variable / as pre-filled default / by leaving the field absent / by InitDefaults / as explicit null; Unpack must fail and name the field. A fault variant is executed only if the model of Unpack for these shapes agrees that exactly this position is invalid. Non-trivial = the type has at least one validator-bearing position; distinct = distinct (type, sources of all leaves, fault)."
+	return "one case = (type, plan). Type: top-level struct of 2-6 fields, depth <= 3, fields of kind int int64 uint float64 string time.Duration and the library leaves Port / Level / DefLevel / DefBad (Validate with value or pointer receiver, InitDefaults giving a valid or an invalid value), pointers to those, slices / arrays / maps of those, structs by value, by pointer, inline, in slices, arrays and maps (by value and by pointer), interface{} fields (holding a number, a string or a pointer to struct), ignored fields, and the library structs WithDefaults / WithBadDefaults (InitDefaults), Range / Pair (cross-field Validate, value / pointer receiver), Hidden (unexported + ignored field); collision-free `config` names and 0-2 validators per field among required, nonzero, positive, min=N, max=N (durations: 5s or 5) that apply to the kind; one type per " + strconv.Itoa(typeShare) + " consecutive cases. Half of the slice fields and one in eight struct / pointer-to-struct / map-of-struct fields carry a merge option in the config tag (append, prepend, replace, merge; inherited by the fields below); one slice field in five is the library type Small ([]int with its own Validate). One type in " + strconv.Itoa(topEvery) + " is a slice or map that is ITSELF the Unpack target (Unpack(&[]T{...}) / Unpack(&map[string]T{...}), configuration a list / object, no variables). Plan: one plan in three passes AppendValues / PrependValues / ReplaceValues / ReplaceArrValues to Unpack; every position independently takes its value from the configuration (spelled as int/int64/uint64/float/string, durations as text or seconds, 1 in 6 through ${v.xN} under PathSep(.)+VarExp), from the pre-filled target, from InitDefaults, or stays zero/nil; slices mix configured, merged and untouched pre-filled elements (index by index without merge mode; separate configured and pre-filled elements under append / prepend / replace), maps mix configured, pre-filled and merged entries; a slice or map without configured elements is absent, null, or present as an empty list / object, over a nil or a filled pre-fill (also shorter lists than the pre-fill). Valid values are interior or exactly on a bound (bounds are inclusive). Base plan: Unpack must return nil and the oracle walk must be clean. Then every (position, validator, source) fault the plan admits (<= " + strconv.Itoa(maxVariants) + " per case) is injected alone: bad value from the configuration / through a variable / as pre-filled default / by leaving the field absent / by InitDefaults / as explicit null / as a pre-filled element or entry that survives the merge while the configuration gives the collection as EMPTY list or object (default+empty-config) / a `required` or `nonzero` collection given as empty list or object over a nil, an empty non-nil or (replace) a dropped pre-fill / one element of a Small too big for its Validate; Unpack must fail and name the field. A fault variant is executed only if the model of Unpack for these shapes agrees that exactly this position is invalid. Non-trivial = the type has at least one validator-bearing position; distinct = distinct (type, sources of all leaves, fault)."
 }
 
 func (check) Assumptions() []string {
@@ -52,7 +53,8 @@ func (check) Assumptions() []string {
 		"oracle = own reflection walk written from the doc comment of Unpack: required (non-nil, number != 0, non-empty string/slice/map), nonzero (number != 0, non-empty; nil allowed), positive (>= 0), min/max inclusive, durations compared as durations (bound 5s or a number of seconds); validators look through pointers and interfaces; ignored and unexported fields are skipped; Validate() is called on every reachable value of the library types (value or pointer receiver)",
 		"only clear cases are generated: bad values miss a bound by >= 0.5, no nil-vs-empty collection under required/nonzero (collections under these tags are non-empty when valid, and the only collection fault is `required` with the field absent), no validator on a kind it does not apply to, no negative bound on unsigned, `required` is only ever satisfied from the configuration, a zero left in an absent non-pointer `nonzero` field is never generated (validator.go's own comment contradicts the Unpack documentation there), a pre-filled value that the configuration overwrites is itself valid",
 		"the error must contain the quoted dotted path of the faulty field ('a.b.0.c'). Accepted as well: the quoted path of any setting enclosing the field (a non-empty proper prefix of its path) when the fault sits inside an element of a slice/array/map, or when the fault does not come from the configuration (pre-filled default, InitDefaults, absent): there is no configuration node to name then. A path that is neither the field nor one of its enclosing settings, or no path at all, is a violation",
-		"for a cross-field Validate() of a struct the faulty 'field' is the struct value itself",
+		"for a cross-field Validate() of a struct the faulty 'field' is the struct value itself; for Validate() of a slice type it is the slice; a top-level slice / map target has no name of its own, \"accessing config\" names it",
+		"merge modes: which pre-filled elements survive is taken from the documentation of the tag options (append / prepend: all, default: the tail beyond the configured list, replace: none); pre-filled elements under replace are no fault positions, because Unpack merges the configured elements into copies of them (not judged here); the error for a configured element must name its index in the configuration list, the walk looks at its index in the result",
 		"avoided shapes (reported by C06/C07): pre-filled map[string]struct entries touched by the configuration, pointers to maps/slices/arrays, nil inline pointers, inline maps, a struct by value inside interface{} merged from the configuration",
 		"not demanded: which of several validators of one field is reported, error wording or type, the values Unpack stores (the model of Unpack is used only to decide whether a variant holds exactly one fault; disagreement between model and Unpack about the stored value only counts model_differs_from_unpack / fault_not_in_result)",
 	}
@@ -68,7 +70,7 @@ var (
 	typeCache = map[int64]*tnode{}
 )
 
-func typeFor(tseed int64) *tnode {
+func typeFor(tseed int64, topColl bool) *tnode {
 	typeMu.Lock()
 	defer typeMu.Unlock()
 	if t, ok := typeCache[tseed]; ok {
@@ -77,7 +79,12 @@ func typeFor(tseed int64) *tnode {
 	if len(typeCache) > 16 {
 		typeCache = map[int64]*tnode{}
 	}
-	t := genType(rand.New(rand.NewSource(tseed)))
+	var t *tnode
+	if topColl {
+		t = genTopColl(rand.New(rand.NewSource(tseed)))
+	} else {
+		t = genType(rand.New(rand.NewSource(tseed)))
+	}
 	typeCache[tseed] = t
 	return t
 }
@@ -516,7 +523,7 @@ func absentByValueStruct(n *pnode) bool {
 // running go-ucfg
 
 type outcome struct {
-	cfg      map[string]interface{}
+	cfg      interface{}
 	preDesc  string
 	target   reflect.Value
 	err      error
@@ -527,16 +534,29 @@ type outcome struct {
 }
 
 func run(res *harness.R, p *pnode) (o outcome) {
-	o.cfg = renderCfg(p)
+	full := renderCfg(p)
+	o.cfg = full
 	o.target = renderPre(p)
 	o.preDesc = canonVal(o.target.Elem())
+	to := o.target.Interface()
+	if p.t.topColl {
+		// the wrapped slice / map itself is the Unpack target
+		w, ok := full["w"]
+		if !ok || w == nil {
+			o.newErr = fmt.Errorf("c04: plan without configuration for the top-level collection")
+			return
+		}
+		o.cfg = w
+		o.preDesc = canonVal(o.target.Elem().Field(0))
+		to = o.target.Elem().Field(0).Addr().Interface()
+	}
 	o.panicked, o.pv, o.where = harness.Safe(func() {
 		c, err := ucfg.NewFrom(o.cfg, unpackOpts...)
 		if err != nil {
 			o.newErr = err
 			return
 		}
-		o.err = c.Unpack(o.target.Interface(), optionsFor(p)...)
+		o.err = c.Unpack(to, optionsFor(p)...)
 	})
 	res.Eval(2)
 	return
@@ -608,7 +628,28 @@ func isSubsequence(named, full string) bool {
 
 func (check) Run(seed int64, tier string, idx int, verbose bool) harness.Result {
 	res := harness.NewR(idx)
-	top := typeFor(harness.Mix(seed, "C04type", idx/typeShare))
+	// every topEvery-th type is a slice or map that is itself the Unpack target
+	topColl := (idx/typeShare)%topEvery == topEvery-1
+	top := typeFor(harness.Mix(seed, "C04type", idx/typeShare), topColl)
+	// norm turns a path of the wrapper into what the target's configuration calls it
+	norm := func(p string) string {
+		if !topColl {
+			return p
+		}
+		if p == "w" {
+			return ""
+		}
+		return strings.TrimPrefix(p, "w.")
+	}
+	targetKind := "struct"
+	if topColl {
+		res.Ev("top_level_collection_cases", 1)
+		targetKind = "top-level-" + kindNames[top.fields[0].t.k]
+		if top.fields[0].t.lib != "" {
+			targetKind += "(" + top.fields[0].t.lib + ")"
+		}
+	}
+	res.SetAdd("unpack_target", targetKind)
 	r := rand.New(rand.NewSource(harness.Mix(seed, "C04", idx)))
 	typeStr := top.String()
 
@@ -712,7 +753,7 @@ func (check) Run(seed int64, tier string, idx int, verbose bool) harness.Result 
 		sig := "valid-input-rejected:unknown"
 		if named, ok := namedPath(o.err.Error()); ok {
 			base.each(func(n *pnode) {
-				if n.path == named && n.parent != nil && sig == "valid-input-rejected:unknown" {
+				if norm(n.path) == named && n.parent != nil && sig == "valid-input-rejected:unknown" {
 					var names []string
 					for _, v := range n.vals() {
 						names = append(names, v.name)
@@ -755,7 +796,7 @@ func (check) Run(seed int64, tier string, idx int, verbose bool) harness.Result 
 		res.Ev("fault_candidates_not_run", int64(len(faults)-maxVariants))
 		faults = faults[:maxVariants]
 	}
-	useVars := r.Intn(5) < 3
+	useVars := r.Intn(5) < 3 && !topColl
 	for _, f := range faults {
 		m := map[*pnode]*pnode{}
 		variant := base.clone(nil, m)
@@ -872,7 +913,8 @@ func (check) Run(seed int64, tier string, idx int, verbose bool) harness.Result 
 			}
 			okPath := false
 			for i, a := range accepted {
-				if strings.Contains(msg, "'"+a+"'") {
+				// (the target itself has no name: "accessing config")
+				if a = norm(a); a != "" && strings.Contains(msg, "'"+a+"'") || a == "" && strings.Contains(msg, "accessing config") {
 					okPath = true
 					if i == 0 {
 						res.SetAdd("outcome", "fault:reported-naming-field")
@@ -892,7 +934,7 @@ func (check) Run(seed int64, tier string, idx int, verbose bool) harness.Result 
 				class = "no-path"
 			} else {
 				for _, a := range accepted {
-					if isSubsequence(named, a) {
+					if isSubsequence(named, norm(a)) {
 						class = "struct-name-missing"
 					}
 				}
